@@ -194,7 +194,7 @@ Definition field_holds (imps : list (bytes * bytes)) (target : bytes) (repl : li
 
 (* sample values: one distinct non-zero value per field, containers for container types *)
 Definition sample (k : N) (t : ty) : value :=
-  match t with
+  match unalias t with
   | TSlice _ => VSlice [VAtom k; VAtom (k + 1)]
   | TMap _ _ => VMap [(VAtom k, VAtom (k + 1))]
   | _ => VAtom k
@@ -249,7 +249,8 @@ Definition copy_holds (ti : tinput) (fs : list field) (ot : otype) : bool :=
      | None => false
      | Some out =>
          forallb (fun f =>
-           if omitted (ti_omit ti) (f_name f) then value_eqb (sget out (f_name f)) VZero
+           if bytes_eqb (f_name f) blank_name then true      (* a blank field holds no value that could be told *)
+           else if omitted (ti_omit ti) (f_name f) then value_eqb (sget out (f_name f)) VZero
            else value_eqb (sget out (f_name f)) (conv_for ti (f_name f) (sget inv (f_name f)))) fs
      end
   && match exec_stmts (conv_for ti) [] [] (ot_stmts ot) with     (* every field zero (nil containers): the copy is zero *)
